@@ -7,7 +7,7 @@ PROPS = {
             "note": "hook receives true result and operands in order: mirror clauses (argument list == operands left in the wrapped expression)"},
     "C04": {"units": ["U4", "U5", "U6b", "U6c"], "min_obligations": 6,
             "note": "every enabled operation instrumented: expr_done postcondition of the dispatcher, NotModified-only-if-literal lemmas of the transforms; traversal (children reach the visitor) is the assumed swc contract"},
-    "C05": {"units": ["U2", "U3", "U4", "U5", "U6b"], "min_obligations": 5,
+    "C05": {"units": ["U2", "U2b", "U3", "U4", "U5", "U6b", "U9"], "min_obligations": 5,
             "note": "configuration honoured: operator gates, hook names taken from the configured dst, disabled operators untouched"},
     "C06": {"units": ["U1", "U3", "U4", "U5", "U6a", "U6b", "U6c", "U7"], "min_obligations": 10,
             "note": "temporaries hygienic: fresh index, declared, assigned before use"},
@@ -19,11 +19,11 @@ PROPS = {
             "note": "status never disagrees with content"},
     "C10": {"units": ["U9"], "min_obligations": 4,
             "note": "source-map chaining / trailer handling live in glue outside the Verus subset: every function is pinned by sha256 and backed by replayed witnesses (NOT a proof; level `other`)", "level": "other"},
-    "C13": {"units": ["U1", "U2", "U3", "U4", "U5", "U6a", "U6b", "U6c", "U8", "U9", "U7"], "min_obligations": 30,
+    "C13": {"units": ["U1", "U2", "U3", "U4", "U5", "U6a", "U6b", "U6c", "U8", "U9", "U7", "U2b"], "min_obligations": 30,
             "note": "totality: Verus' implicit obligations (no overflow, no failing unwrap/index/slice, every loop and recursion terminates) on every verified function of every unit; glue functions pinned + panic witnesses"},
     "C14": {"units": ["U8"], "min_obligations": 8,
             "note": "literal report: length window, require/RegExp exclusions, which sub-trees are visited, disabled => no report; line/column shaping (get_result) is a pinned trusted leaf"},
-    "C15": {"units": ["U1", "U4", "U5", "U6b", "U6c", "U7"], "min_obligations": 10,
+    "C15": {"units": ["U1", "U4", "U5", "U6b", "U6c", "U7", "U2b"], "min_obligations": 10,
             "note": "metrics == instrumentation emitted: per-call contracts on update_status/Telemetry (U1) and on every update_status call site of visit_mut_expr (U6)"},
 }
 
